@@ -62,7 +62,7 @@ def gen_busy_package(rng, d, nfun=40):
 
 def modules(ctx, rng, n_gen):
     mods = [(os.path.join(common.VERIF, "corpus", "c10"), False), (os.path.join(common.VERIF, "corpus", "c15"), False)]
-    for m in ("m3", "m9", "m9b", "m5"):
+    for m in ("m3", "m9", "m9b", "m5", "m10"):
         mods.append((os.path.join(common.VERIF, "corpus", "det", m), False))
     for _ in range(n_gen):
         d = ctx.scratch()
